@@ -158,3 +158,79 @@ def oracle(case, res):
     if res.kind == "ok":
         return f"a wrongly shaped buffer (or x/y shape mismatch) must never produce Ok, got {res.raw[:100]}"
     return None
+
+
+def extra(rng, tier):
+    """'the buffer equals what the allocating variant returns': every *_into call next to its allocating twin (interp / interp_into,
+    interp_array / interp_array_into) on the same interpolator and query, in every element type — identical output, bit for bit at
+    f64/f32, exactly at Q and i64/i32 (seed C14-r5m2: an allocating `interp` with its own, differently rounded formula)."""
+    import vlib
+    pairs = []
+    for _ in range(gen.N(tier, 120, 3000)):
+        S = rng.choice(["Q", "F", "F", "I", "G", "J"])
+        two_d = rng.random() < 0.3 and S in ("Q", "F", "I")
+        ext = rng.random() < 0.4
+        trailing = [rng.choice([1, 2, 3]) for _ in range(rng.choice([0, 1, 1, 2]))]
+        def axis(n):
+            if S == "Q":
+                return gen.axis_q(rng, n)
+            if S == "F":
+                return gen.axis_f(rng, n, rng.choice(["random", "uniform", "geometric", "evenish"]))
+            if S == "G":
+                v = sorted({vlib.f32_round(rng.uniform(-40, 40)) for _ in range(4 * n)})
+                return v[::max(1, len(v) // n)][:n]
+            return gen.axis_i(rng, n, rng.choice(["uniform", "random", "gappy"]))
+        def vals(k):
+            if S == "Q":
+                return gen.vals_q(rng, k)
+            if S == "F":
+                return [rng.uniform(-9, 9) for _ in range(k)]
+            if S == "G":
+                return [vlib.f32_round(rng.uniform(-9, 9)) for _ in range(k)]
+            return [rng.randint(-1000, 1000) for _ in range(k)]
+        def pick(ax):
+            lo, hi = ax[0], ax[-1]
+            span = hi - lo
+            if S in ("I", "J"):
+                return rng.randint(lo - (span if ext else 0), hi + (span if ext else 0))
+            if S == "Q":
+                return lo + span * Fr(rng.randint(-16 if ext else 0, 32 if ext else 16), 16)
+            v = rng.uniform(lo - (span if ext else 0), hi + (span if ext else 0))
+            v = min(max(v, lo), hi) if not ext else v
+            return vlib.f32_round(v) if S == "G" else v
+        qshape = rng.choice([[], [2], [3], [2, 2], [1, 3]])
+        nq = max(1, gen.shape_size(qshape))
+        qtag = rng.choice(["sta", "dyn"])
+        if two_d:
+            nx, ny = rng.choice([2, 3]), rng.choice([2, 4])
+            xs, ys = axis(nx), axis(ny)
+            if len(xs) < nx or len(ys) < ny:
+                continue
+            shape = [nx, ny] + trailing
+            flat = vals(gen.shape_size(shape))
+            qx, qy = [pick(xs) for _ in range(nq)], [pick(ys) for _ in range(nq)]
+            mk = lambda e: i2_line(S, xs, ys, shape, flat, ext, e, dlay=rng.choice(gen.LAYS_ND))
+            qa = (qx, qy)
+        else:
+            n = rng.choice([2, 3, 5])
+            xs = axis(n)
+            if len(xs) < n:
+                continue
+            shape = [n] + trailing
+            flat = vals(gen.shape_size(shape))
+            strat = ("lin", ext) if S in ("I", "J") or rng.random() < 0.7 or n < 3 else ("spl", ext, rng.choice(["nak", "nat", "cla"]))
+            qs = [pick(xs) for _ in range(nq)]
+            mk = lambda e: i1_line(S, xs, shape, flat, strat, e, dlay=rng.choice(gen.LAYS_ND))
+            qa = (qs,)
+        q1 = [a[0] for a in qa]
+        blay = lambda: rng.choice(["w", "c", "f", "s2", "rev"])
+        pairs.append((mk(gen.e_single(S, *q1)), mk(e_into(S, q1, trailing, blay()))))
+        pairs.append((mk(e_array(S, qshape, *[a[:gen.shape_size(qshape)] for a in qa], qtag=qtag)),
+                      mk(e_ainto(S, qshape, qshape + trailing, *[a[:gen.shape_size(qshape)] for a in qa], qtag=qtag, blay=blay()))))
+    outs = vlib.run_impl_only(ID, [l for p in pairs for l in p], tag="twins")
+    fails = []
+    for k, (a, b) in enumerate(pairs):
+        ra, rb = outs[2 * k], outs[2 * k + 1]
+        if ra != rb:
+            fails.append({"line": b, "impl": rb[:300], "required": f"the buffer must equal what the allocating variant `{a[:300]}` returns: {ra[:300]}"})
+    return {"evaluations": len(outs), "failures": fails, "hist": {"alloc_into_pairs": len(pairs)}}
